@@ -93,6 +93,31 @@ def slice_events(darsia, rng, shape, table, tid):
     h = [rng.choice([0.1, 0.5, 0.3 / 7]) for _ in range(n)]
     # origins as users write them: floats, Python ints, integer arrays (a cut coordinate is a float in every case)
     img, o, arr = build_image(darsia, rng, shape, h, rng.choice(["default", "user", "int", "intarr"]), "scalar", table)
+
+    def slices_for(c, name, org, suffix):
+        # slices: cut through the centre of voxel q along the matrix axis belonging to name c; the cut coordinate is the
+        # harness' own (origin + sign * (q + 1/2) * voxel size), not one read back from the image
+        m_of_c = [m for m in range(n) if table[m][0] - 1 == c][0]
+        sgn_c = table[m_of_c][1]
+        for q in range(shape[m_of_c]):
+            byindex, byindexmeta = [], []
+            for m in range(n):
+                if q < shape[m]:
+                    r = safe(lambda: img.slice(q, m if rng.random() < 0.5 else np.int64(m)))
+                    byindex.append(tags(r.img) if r is not None else "ERR")
+                    byindexmeta.append(placement(r) if r is not None else [])
+                else:
+                    byindex.append("n/a")
+                    byindexmeta.append([])
+            cut = float(org[c] + sgn_c * (q + 0.5) * h[m_of_c])
+            r = safe(lambda: img.slice(cut, name))
+            ev.append({"op": "slice", "tid": tid + suffix, "n": n, "c": c, "shape": list(shape), "q": q,
+                       "bynamemeta": placement(r) if r is not None else [], "byindexmeta": byindexmeta,
+                       "byname": tags(r.img) if r is not None else [], "bynameok": int(r is not None),
+                       "byindex": [b if b not in ("ERR", "n/a") else [] for b in byindex],
+                       "byindexok": [int(b != "ERR") for b in byindex],
+                       "plain": [tags(arr.take(q, axis=m)) if q < shape[m] else [] for m in range(n)]})
+
     for c in range(n):
         name = "xyz"[c]
         for mode in ["sum", "average"]:
@@ -110,28 +135,26 @@ def slice_events(darsia, rng, shape, table, tid):
                        "bynamemeta": placement(r) if r is not None else [], "byindexmeta": byindexmeta,
                        "byname": tags(r.img * scn) if r is not None else [], "bynameok": int(r is not None),
                        "byindex": [b if b != "ERR" else [] for b in byindex], "byindexok": [int(b != "ERR") for b in byindex], "plain": plain})
-        # slices: cut through the centre of voxel q along the matrix axis belonging to name c
-        m_of_c = [m for m in range(n) if table[m][0] - 1 == c][0]
-        for q in range(shape[m_of_c]):
-            byindex, byindexmeta = [], []
-            for m in range(n):
-                if q < shape[m]:
-                    r = safe(lambda: img.slice(q, m if rng.random() < 0.5 else np.int64(m)))
-                    byindex.append(tags(r.img) if r is not None else "ERR")
-                    byindexmeta.append(placement(r) if r is not None else [])
-                else:
-                    byindex.append("n/a")
-                    byindexmeta.append([])
-            centre = np.asarray(img.coordinatesystem.coordinate([q if mm == m_of_c else 0 for mm in range(n)]), dtype=float)
-            step = np.asarray(img.coordinatesystem.coordinate([q + 1 if mm == m_of_c else 0 for mm in range(n)]), dtype=float)
-            cut = float(0.5 * (centre[c] + step[c]))
-            r = safe(lambda: img.slice(cut, name))
-            ev.append({"op": "slice", "tid": tid, "n": n, "c": c, "shape": list(shape), "q": q,
-                       "bynamemeta": placement(r) if r is not None else [], "byindexmeta": byindexmeta,
-                       "byname": tags(r.img) if r is not None else [], "bynameok": int(r is not None),
-                       "byindex": [b if b not in ("ERR", "n/a") else [] for b in byindex],
-                       "byindexok": [int(b != "ERR") for b in byindex],
-                       "plain": [tags(arr.take(q, axis=m)) if q < shape[m] else [] for m in range(n)]})
+        slices_for(c, name, o, "")
+    # the image is given another position (reset_origin / update_metadata / assignment of the origin) after its coordinate
+    # system has been used, and is cut by Cartesian name again: the cuts are those of the NEW position
+    how = rng.choice(["reset", "update", "assign"])
+    if how == "reset":
+        img.reset_origin()
+        o2 = np.zeros(n)
+        for m in range(n):
+            cc, sgn = table[m]
+            if sgn < 0:
+                o2[cc - 1] = h[m] * shape[m]
+    else:
+        o2 = np.array([o[k_] + (2 + k_) * 1.5 * h[[m for m in range(n) if table[m][0] - 1 == k_][0]] for k_ in range(n)], dtype=float)
+        if how == "update":
+            img.update_metadata(origin=darsia.Coordinate(o2.copy()))    # the attribute's declared type (a bare list is not)
+        else:
+            img.origin = darsia.Coordinate(o2.copy())
+    if not np.allclose(o2, o):
+        for c in range(n):
+            slices_for(c, "xyz"[c], o2, ":moved-" + how)
     return ev
 
 
